@@ -21,7 +21,6 @@ THEOREMS = [
     ("send_parity",
      "forall (checked : bool) (error_page : N -> resp) (pkg : N -> headers -> headers), pkg_oblivious pkg -> "
      "forall (secure1 : bool) (alt : option bytes) (m : N) (sd : outcome (option (N * N))) (r : resp), "
-     "send checked error_page pkg H2 true alt m sd r <> Ok WRefused -> "
      "onorm (send checked error_page pkg H1 secure1 alt m sd r) = onorm (send checked error_page pkg H2 true alt m sd r)"),
     ("protocol_parity",
      _LAYER + "(cache_on ims_on : bool) (parse_ims : bytes -> option Z) (sanitize_ok : request -> bool) (prime : request -> request) "
@@ -30,7 +29,6 @@ THEOREMS = [
      "(pkg : N -> headers -> headers) (alt : option bytes) (sanitize : request -> outcome (option (N * N))) "
      "(encode : request -> N -> headers -> bytes -> headers * bytes) (hversion : N), pkg_oblivious pkg -> "
      "forall (secure1 : bool) (st : state hstate) (now : N) (r0 : request), "
-     "answer " + _ANSWER_ARGS + " H2 true st now r0 <> Ok WRefused -> "
      "onorm (answer " + _ANSWER_ARGS + " H1 secure1 st now r0) = onorm (answer " + _ANSWER_ARGS + " H2 true st now r0)"),
     ("head_is_get_without_body",
      "forall (checked : bool) (error_page : N -> resp) (pkg : N -> headers -> headers) (p : proto) (secure : bool) "
@@ -39,15 +37,14 @@ THEOREMS = [
     ("head_parity",
      "forall (checked : bool) (error_page : N -> resp) (pkg : N -> headers -> headers), pkg_oblivious pkg -> "
      "forall (secure1 : bool) (alt : option bytes) (sd : outcome (option (N * N))) (r : resp), "
-     "send checked error_page pkg H2 true alt M_GET sd r <> Ok WRefused -> "
      "onorm (send checked error_page pkg H1 secure1 alt M_HEAD sd r) = odrop (onorm (send checked error_page pkg H2 true alt M_GET sd r)) /\\ "
      "onorm (send checked error_page pkg H2 true alt M_HEAD sd r) = odrop (onorm (send checked error_page pkg H2 true alt M_GET sd r))"),
     ("pkg_menu_is_oblivious",
      "forall ops : list pkg_op, Forall (fun o => hop (pkg_op_name o) = false) ops -> pkg_oblivious (pkg_menu ops)"),
-    ("h2_accepts_clean_heads", "forall h : headers, conn_free h -> h2_refuses h = false"),
-    ("parity_without_h2_acceptance_refuted",
-     "exists r : resp, onorm (send false (fun _ => r) (pkg_menu []) H1 true None M_GET (Ok None) r) "
-     "<> onorm (send false (fun _ => r) (pkg_menu []) H2 true None M_GET (Ok None) r)"),
+    ("h2_never_refuses",
+     "forall (checked : bool) (error_page : N -> resp) (pkg : N -> headers -> headers) (p : proto) (secure : bool) "
+     "(alt : option bytes) (m : N) (sd : outcome (option (N * N))) (r : resp), "
+     "send checked error_page pkg p secure alt m sd r <> Ok WRefused"),
     ("stream_independence",
      _LAYER + "(ims_on : bool) (parse_ims : bytes -> option Z) (sanitize_ok : request -> bool) (prime : request -> request) "
      "(negotiate : request -> fat -> option (N * bytes)) (vary_tuple : request -> tuple) "
@@ -82,12 +79,14 @@ RULE = ("Real kvarn::handle_connection on loopback TCP pairs, TLS by a rustls Se
         "http/1.1, or plain TCP) to host A and over one HTTP/2 connection (h2 crate client over tokio-rustls, ALPN h2) to an identical "
         "fresh host B; the ALPN result is asserted. Hosts: response cache on/off x handler pages (compressible text with "
         "ServerCachePreference Full / None, QueryMatters page echoing path?query, method echo, a page whose handler sets its own "
-        "content-length, empty body, 404/500 handler pages) + files (text, binary, index.html) + missing paths + unsafe paths "
+        "content-length, pages whose handlers leave connection-specific headers (keep-alive, connection, upgrade, te, "
+        "proxy-connection), empty body, 404/500 handler pages) + files (text, binary, index.html) + missing paths + unsafe paths "
         "(/./x) + a POST echo handler that reads the request body; Package menus (or_insert / insert / remove / append, 0-3 "
         "extensions in priority order). Requests: GET/HEAD/POST/OPTIONS/PUT x Accept-Encoding {none, gzip, br, identity, gzip;q=0, "
         "*;q=0 identity;q=0} x Range around the length of the ENCODED representation (a>b, a=len, open forms) x If-Modified-Since "
         "(future / past / garbage; cold and warm cache) x Origin x query strings x bodies. Oracles: (a) parity itself, independent of "
-        "the model: status, all headers except {connection, keep-alive, content-length, alt-svc, transfer-encoding} as sorted "
+        "the model: status, all headers except {connection, keep-alive, proxy-connection, transfer-encoding, upgrade, te, "
+        "content-length, alt-svc} as sorted "
         "multisets (last-modified value masked) and body bytes of the two protocols are equal; (b) both equal the Coq specification "
         "proto.pair_spec (range_spec of C09 on the layer-4 response, package menu on end-to-end headers, body unless HEAD); (c) the "
         "complete wire answers (version, every header incl. content-length / connection / alt-svc) equal the extracted model "
@@ -104,9 +103,8 @@ RULE = ("Real kvarn::handle_connection on loopback TCP pairs, TLS by a rustls Se
 ASSUMPTIONS = [
     "Package extensions are oblivious to the response version and to connection-level headers (pkg_oblivious; proved for the "
     "harness's menu whenever it names no hop header: pkg_menu_is_oblivious); status rewriting by a Package extension is not modelled",
-    "the parity theorems hold whenever the h2 crate sends the head (send H2 <> WRefused); sufficient: no connection-specific "
-    "header on the response (h2_accepts_clean_heads). The excluded class is witnessed in the model (parity_without_h2_acceptance_"
-    "refuted) and replayed on the real server (known finding h2-refuses-connection-headers)",
+    "h2's check_headers (the only condition under which the h2 crate refuses a response head) is transcribed; h2_never_refuses "
+    "shows the repaired HTTP/2 arm never triggers it",
     "stream_independence: the handler contract of C03 (response a function of method class, path, vary tuple and - for "
     "QueryMatters - the query; uniform query-matters-ness per path; error responses uncacheable), requests without "
     "If-Modified-Since (a conditional request is answered 304 or 200 depending on whether another stream has filled the cache "
@@ -137,8 +135,9 @@ TRUSTED = [
 LEVEL_TEXT = ("partial. Machine-checked Coq theorems over an executable model of the protocol-dependent send path above the shared "
               "layer 4 of C03: protocol_parity / send_parity (for every host configuration, cache state, request, layer-4 response, "
               "TLS or plain HTTP/1 connection and oblivious Package chain the HTTP/1.1 and HTTP/2 answers are equal after dropping the "
-              "version and exactly the headers connection, keep-alive, content-length, alt-svc, transfer-encoding - proved, not "
-              "sampled: nothing else differs - whenever the h2 crate accepts the head), head_parity (HEAD = GET minus body on both "
+              "version and exactly the headers connection, keep-alive, proxy-connection, transfer-encoding, upgrade, te, "
+              "content-length, alt-svc - proved, not sampled: nothing else differs; h2_never_refuses: the h2 crate's header check "
+              "never rejects the head the repaired HTTP/2 arm produces), head_parity (HEAD = GET minus body on both "
               "protocols), stream_independence (for every set of concurrent streams and EVERY schedule of the tasks' lookup and "
               "completion blocks over the shared response cache, every stream receives byte for byte the HTTP/2 answer of its own "
               "request alone, under C03's handler contract) and streams_answered_exactly_once. The model is tied to /repo on every run "
@@ -154,7 +153,7 @@ TECHNIQUE = ("Coq proof (equality up to an explicit header filter; inductive inv
              "differential correspondence over real TLS connections with both protocols")
 
 ALT = b'h3=":8443";ma=2592000'
-HOP = {b"connection", b"keep-alive", b"content-length", b"alt-svc", b"transfer-encoding"}
+HOP = {b"connection", b"keep-alive", b"proxy-connection", b"transfer-encoding", b"upgrade", b"te", b"content-length", b"alt-svc"}
 
 TEXT = (b"The quick brown fox jumps over the lazy dog. " * 6)[:240]
 BIN = bytes((i * 37 + 11) % 251 for i in range(300))
@@ -178,7 +177,7 @@ PKG_MENUS = [
 ]
 
 
-def host_cfg(cache, pkg, with_files=True, slow=(), ctlen=True, bad=None):
+def host_cfg(cache, pkg, with_files=True, slow=(), ctlen=True):
     hs = [H(b"/p", TEXT, headers=[(b"content-type", b"text/plain"), (b"x-h", b"p")], spref=2, compress=True),
           H(b"/n", TEXT[:150], headers=[(b"content-type", b"text/plain")], spref=0, compress=True),
           H(b"/q", b"q:", kind=1, headers=[(b"content-type", b"text/plain")], spref=1),
@@ -190,8 +189,11 @@ def host_cfg(cache, pkg, with_files=True, slow=(), ctlen=True, bad=None):
     if ctlen:
         # a handler that states its own content-length (the length before compression / range)
         hs.append(H(b"/cl", TEXT[:200], headers=[(b"content-type", b"text/plain"), (b"content-length", b"200")], spref=2, compress=True))
-    if bad is not None:
-        hs.append(H(b"/bad", b"x" * 30, headers=[(b"content-type", b"text/plain"), bad], spref=0))
+    # handlers that leave connection-specific headers on their responses (repaired: dropped on HTTP/2)
+    hs.append(H(b"/ka", b"k" * 30, headers=[(b"content-type", b"text/plain"), (b"keep-alive", b"timeout=5"), (b"connection", b"keep-alive")], spref=0))
+    hs.append(H(b"/up", b"u" * 70, headers=[(b"content-type", b"text/plain"), (b"upgrade", b"h2c"), (b"te", b"gzip"), (b"proxy-connection", b"close"),
+                                             (b"connection", b"close")], spref=2, compress=True))
+    hs.append(H(b"/te", b"t" * 10, headers=[(b"te", b"trailers"), (b"x-h", b"te")], spref=2))
     kvs = [xl(xb("cache"), xbool(cache)), xl(xb("handlers"), xlist(hs)),
            xl(xb("pkg"), xlist([xl(xz(p), xn(k), xb(n), xb(v)) for p, k, n, v in pkg])),
            xl(xb("echo"), xlist([xb(b"/echo")]))]
@@ -266,7 +268,7 @@ def exchanges(reqs, pr):
 # requests
 # ----------------------------------------------------------------------------------------------
 AES = [None, b"gzip", b"br", b"identity", b"gzip, br;q=0.5", b"gzip;q=0", b"*;q=0, identity;q=0", b"zstd"]
-PATHS = [b"/p", b"/p", b"/n", b"/q", b"/q?x=1", b"/q?x=2", b"/m", b"/empty", b"/short", b"/nf", b"/ise", b"/cl", b"/f.txt", b"/f.txt",
+PATHS = [b"/ka", b"/up", b"/te", b"/p", b"/p", b"/n", b"/q", b"/q?x=1", b"/q?x=2", b"/m", b"/empty", b"/short", b"/nf", b"/ise", b"/cl", b"/f.txt", b"/f.txt",
          b"/b.bin", b"/index.html", b"/e.txt", b"/missing", b"/missing.html", b"/./x", b"/p?a=b", b"/dir/../f.txt", b"/f%2Etxt", b"/"]
 
 
@@ -335,6 +337,9 @@ DIRECTED_HISTORIES = [
     [R(b"POST", b"/echo", [(b"content-length", b"5")], b"hello"), R(b"POST", b"/echo", [(b"content-length", b"0")]),
      R(b"POST", b"/echo", [(b"content-length", b"3000")], b"z" * 3000), R(b"GET", b"/echo"), R(b"PUT", b"/echo", [(b"content-length", b"2")], b"ab"),
      R(b"POST", b"/p"), R(b"GET", b"/p")],
+    # the second repaired defect: connection-specific headers on a handler's response, over HTTP/2
+    [R(b"GET", b"/ka"), R(b"HEAD", b"/ka"), R(b"GET", b"/up"), R(b"GET", b"/up", [(b"accept-encoding", b"gzip")]), R(b"GET", b"/te"),
+     R(b"GET", b"/up", [(b"range", b"bytes=3-8")]), R(b"GET", b"/p")],
     # empty bodies
     [R(b"GET", b"/empty"), R(b"HEAD", b"/empty"), R(b"GET", b"/e.txt"), R(b"GET", b"/empty", [(b"range", b"bytes=0-0")]), R(b"GET", b"/short", [(b"accept-encoding", b"gzip")])],
 ]
@@ -358,20 +363,14 @@ def gen_pairs(rng, n_random, kind="pair"):
     return [pair_case(job[0], pkg, h, pr, s1, k) for (c, pkg, h, s1, k), job, pr in zip(plans, jobs, prs)]
 
 
-KNOWN_BAD = [(b"keep-alive", b"timeout=5"), (b"upgrade", b"h2c"), (b"connection", b"keep-alive")]
-
-
 def gen_known(rng):
-    """the excluded classes, replayed on the real server: a handler leaves a connection-specific header on its response;
-    a request body that nobody reads (the handler is not run: sanitize refuses the Range) desynchronises HTTP/1.1"""
-    plans = []
-    for bad in KNOWN_BAD[:2]:
-        plans.append((bad, [R(b"GET", b"/bad"), R(b"GET", b"/p")], "known-connection-header"))
-    plans.append((None, [R(b"PUT", b"/echo", [(b"range", b"bytes=10-4"), (b"content-length", b"700")], b"u" * 700), R(b"GET", b"/p")],
-                  "known-unread-body"))
-    jobs = [(host_cfg(True, [], bad=bad), h, 0) for bad, h, _ in plans]
+    """the known class, replayed on the real server: a request body that nobody reads (the handler is not run: sanitize
+    refuses the Range) desynchronises HTTP/1.1"""
+    plans = [([R(b"PUT", b"/echo", [(b"range", b"bytes=10-4"), (b"content-length", b"700")], b"u" * 700), R(b"GET", b"/p")],
+              "known-unread-body")]
+    jobs = [(host_cfg(True, []), h, 0) for h, _ in plans]
     prs = probe(jobs)
-    cases = [pair_case(job[0], [], h, pr, True, k) for (bad, h, k), job, pr in zip(plans, jobs, prs)]
+    cases = [pair_case(job[0], [], h, pr, True, k) for (h, k), job, pr in zip(plans, jobs, prs)]
     for c in cases:
         if c.meta["kind"] == "known-unread-body":
             c.comp, c.spec = "proto.answered", "proto.answered_spec"
@@ -600,8 +599,6 @@ def unread_body(c):
 
 
 def classify(c, i):
-    if c.comp == "proto.pair" and i and "(L (N 0) (L (N 3)))" in i:
-        return "h2-refuses-connection-headers"
     if c.comp == "proto.answered" and i == "(L (N 0) (N 1))" and unread_body(c):
         return "h1-unread-request-body"
     return None
